@@ -1102,6 +1102,7 @@ type cres =
 | COverflowError
 | CValueError
 | CUnicodeDecodeError
+| CAbort
 
 (** val uchar_accepts : bool -> z -> bool -> z -> bool **)
 
@@ -1168,10 +1169,7 @@ let from_ordinal_padded iv ulength pad =
                  then CText (app pads (cp :: []))
                  else CUnicodeDecodeError
   else if Z.leb iv (Zpos (XI (XI (XI (XI (XI (XI XH)))))))
-       then CText
-              (app pads
-                ((Z.modulo iv (Zpos (XO (XO (XO (XO (XO (XO (XO (XO
-                   XH)))))))))) :: []))
+       then if Z.ltb iv Z0 then CAbort else CText (app pads (iv :: []))
        else (match from_ordinal iv with
              | CText l -> CText (app pads l)
              | x -> x)
